@@ -47,8 +47,6 @@ D_Etop(prec) == D_Emax - prec + 1
 D_Min(x, y) == IF x <= y THEN x ELSE y
 D_Max(x, y) == IF x >= y THEN x ELSE y
 
-D_Blk == 16   \* block size of the two-level recursions
-
 D_Mk(s, digs, e) == [sign |-> s, digs |-> digs, exp |-> e]
 D_MkInt(s, digs) == [sign |-> s, digs |-> digs]
 
@@ -180,7 +178,7 @@ D_DivMod(n, d) ==
                n)
   IN << D_Strip(r[1]), r[2] >>
 
-\* small TLC natural from a short digit sequence (oracle side only)
+\* small TLC natural from the first k digits of a short digit sequence (k <= 9)
 RECURSIVE D_ToNat(_, _)
 D_ToNat(s, k) == IF k = 0 THEN 0 ELSE 10 * D_ToNat(s, k - 1) + s[k]
 
@@ -445,6 +443,7 @@ DecPowEnvelope(a, n, r, prec) ==
   IF IsSig(r)
   THEN \/ r.sig = "InvalidOperation" /\ za /\ n = 0
        \/ r.sig = "Overflow" /\ ~za /\ n > 0 /\ adE >= D_Emax
+       \/ r.sig = "Unspecified" /\ ~za /\ n > 0 /\ adE <= D_Emin     \* subnormal
   ELSE IF za /\ n = 0 THEN FALSE
   ELSE IF za THEN DecIsZero(r) /\ r.sign = se
   ELSE IF adE < D_Emin THEN TRUE
